@@ -53,11 +53,11 @@ def key_fn(case, ob, code):
                 return "out-of-domain-readable/dynamic-range-getter-clamps-onto-excluded-low-endpoint"     # F23
             if r and hi_ and r == hi_ and dd[3] & 2:
                 return "out-of-domain-readable/dynamic-range-getter-clamps-onto-excluded-high-endpoint"    # F23
+        if any(t[1][0] == "DEnumDyn" for t in case["traits"]):
+            return "dynamic-enum-reads-a-value-outside-the-current-collection"
         return "dynamic-range-reads-outside-declared-range/%s" % pv.shape(d)
     if any(v2 == ["PUndefined"] for _, v2 in case["ops"][step][1]):
         return "out-of-domain-readable/Undefined-sentinel-bypasses-validation"                # F22
-    if d[0] == "DCompound" and any(a[0] in ("DMap", "DPrefixMap") for a in d[1]):
-        return "compound-with-Map-alternative/post_setattr-raises-KeyError-after-storing"     # F19
     if clause == 1 and d[0] == "DInstance" and not d[2] and d[1] in (0, 1) and \
             any(w == ["PNone"] for n, w in ob["steps"][step]["after"] if n == case["ops"][step][1][0][0]):
         return "out-of-domain-readable/none-stored-although-allow_none-false"                  # F18
@@ -121,7 +121,15 @@ def corpus():
     one(["DMap", [[S("a"), ["PInt", 1]], [["PInt", 1], ["PInt", 2]]]], S("a"), ["PFloat", F(1.0)], S("c"), ["PList", []], ["PBool", True])
     one(["DPrefixMap", [[pv.W("yes"), ["PInt", 1]], [pv.W("no"), ["PInt", 0]], [pv.W("yesterday"), ["PInt", 2]]]],
         S("ye"), S("n"), S("yest"), ["PStrSub", pv.W("no")], ["PInt", 1])
-    one(["DCompound", [["DMap", [[S("a"), ["PInt", 1]]]], ["DInt"]]], S("a"), ["PInt", 5], S("b"))
+    # repaired F19 (c056106): Map / PrefixMap as an alternative of a compound: a value accepted by ANOTHER alternative is
+    # stored, its shadow is the value itself, nothing is raised; the first assignment materialises the default None the same way
+    pmx = ["DPrefixMap", [[pv.W("yes"), ["PInt", 1]], [pv.W("no"), ["PInt", 0]], [pv.W("yesterday"), ["PInt", 2]]]]
+    for how in ("Attr", "TraitSet", "Ctor", "TraitSetQ"):
+        one(["DCompound", [["DMap", [[S("a"), ["PInt", 1]]]], ["DInt"]]], S("a"), ["PInt", 5], S("b"), ["PInt", 5], S("a"), how=how)
+        one(["DCompound", [pmx, ["DInt"]]], S("ye"), ["PInt", 5], S("n"), S("zz"), ["PInt", 7], S("yes"), how=how)
+        one(["DCompound", [["DFloat"], pmx, ["DMap", [[["PInt", 1], S("one")], [S("k"), ["PNone"]]]]]], ["PInt", 1], S("k"), S("no"),
+            ["PFloat", F(0.5)], ["PBool", True], ["PNone"], S("yest"), how=how)
+        one(["DUnion", [["DMap", [[S("a"), ["PInt", 1]]]], ["DInt"]]], S("a"), ["PInt", 5], S("b"), how=how)
     # the quiet routes x mapped traits: the shadow must follow the value (post_setattr runs with notifications off)
     m1 = ["DMap", [[S("a"), ["PInt", 1]], [["PInt", 1], ["PInt", 2]], [S("b"), S("abc")]]]
     pm = ["DPrefixMap", [[pv.W("yes"), ["PInt", 1]], [pv.W("no"), ["PInt", 0]], [pv.W("yesterday"), ["PInt", 2]]]]
@@ -197,6 +205,24 @@ def corpus():
                                            ["TraitSetQ", [[3, iv(hi)]]]] + [["TraitSetq", [[0, v]]] for v in ends[:4]]
                            + [["Ctor", [[3, iv(hi)], [2, iv(lo)], [0, ends[0]]]], ["Ctor", [[2, iv(lo)], [3, iv(hi)], [0, ends[1]]]],
                               ["Attr", [[2, S("a")]]], ["Attr", [[0, ends[1]]]]]))
+    # Enum(values='y') with y = List(Str) / List(Any) of the same class (description DEnumDyn 2): assign, then the collection
+    # changes so that the stored value is no longer a member, then the attribute is read (pseudo-name 2000) at every step
+    def L(*xs):
+        return ["PList", list(xs)]
+    for item in (["DStr"], ["DAny"]):
+        tr = [[0, ["DEnumDyn", 2]], [1, ["DInt"]], [2, ["DList", item, 0, pv.MAXSIZE]]]
+        rgb, cmy = L(S("red"), S("blue")), L(S("cyan"), S("magenta"), S("yellow"))
+        cs.append(dict(traits=tr, ops=[["Attr", [[2, rgb]]], ["Attr", [[0, S("blue")]]], ["Attr", [[0, S("green")]]],
+                                       ["Attr", [[2, cmy]]], ["Attr", [[1, ["PInt", 3]]]], ["Attr", [[0, S("blue")]]],
+                                       ["TraitSetQ", [[0, S("yellow")]]], ["TraitSet", [[2, L()]]], ["Attr", [[0, S("x")]]],
+                                       ["Attr", [[2, rgb]]], ["Attr", [[0, ["PNone"]]]], ["Attr", [[0, ["PUndefined"]]]]]))
+        cs.append(dict(traits=tr, ops=[["Ctor", [[2, rgb], [0, S("red")]]], ["TraitSetq", [[2, L(S("blue"))]]],
+                                       ["Ctor", [[2, cmy]]], ["Ctor", [[2, rgb], [0, S("cyan")]]], ["TraitSet", [[2, cmy], [0, S("cyan")]]]]))
+    tr = [[0, ["DEnumDyn", 2]], [2, ["DList", ["DAny"], 0, pv.MAXSIZE]]]
+    mixed = L(["PInt", 1], S("a"), ["PFloat", F(0.5)], ["PNone"], ["PTuple", [["PInt", 1], ["PInt", 2]]])
+    cs.append(dict(traits=tr, ops=[["Attr", [[2, mixed]]]] + [["Attr", [[0, v]]] for v in
+                   (["PBool", True], ["PInt", 2], ["PNone"], ["PFloat", F(1.0)], ["PTuple", [["PInt", 1], ["PInt", 2]]], S("b"),
+                    ["PFloat", F(0.5)], ["PList", []])] + [["Attr", [[2, L(["PInt", 7])]]], ["Attr", [[0, ["PInt", 7]]]]]))
     # membership tests against a value whose == has no truth value (numpy array of size > 1) / that is unhashable:
     # the rejection must be a TraitError naming the attribute, not numpy's ValueError
     arr = [["PArray", 32, [3], 0], ["PArray", 30, [2, 3], 1], ["PArray", 36, [2], 0]]
@@ -240,8 +266,6 @@ def configs(rnd, quick):
     rand = []
     for _ in range(80 if quick else 900):
         d = pv.gen_desc(rnd, 3)
-        while has_mapped_compound(d):      # F19: only the fixed corpus histories exercise that shape
-            d = pv.gen_desc(rnd, 3)
         if rnd.random() < 0.3:
             d = ["DUnion", [d, rnd.choice(pv.STRINGS + pv.int_ranges() + pv.SIMPLE_FAST)]]
         rand.append(d)
